@@ -111,7 +111,7 @@ def reference_check(ctx):
             ctx.count("reference_undecided")
             continue
         if d["tokens"] != want:
-            ctx.violations.append({"case": c["meta"], "line": wlgen.wlgen_line(c["list"], c["length"], c["sep"], c["cap"], c["budget"], c["words"]), "observed": a[:400],
+            ctx.violations.append({"case": c["meta"], "line": wlgen.wlgen_line(c["list"], c["length"], c["sep"], c["cap"], c["budget"], c["words"], shadow=c.get("shadow")), "observed": a[:400],
                                    "finding_key": "C04-reference", "what": "the password is not the one the documented draws select on this tape (each word, capitalised position and separator a fresh draw): expected %r" % (want[:8],)})
 
 
@@ -128,5 +128,6 @@ def replay(v):
     r, _ = core.run_impl([line])
     print(line[:400])
     print("->", r.get("r"))
+    core.replay_shared_list(v["line"])
     print("violation:", v["what"])
     return 1
